@@ -206,7 +206,13 @@ func Max[T constraints.Numeric]() func(Observable[T]) Observable[T] {
 					},
 					destination.ErrorWithContext,
 					func(ctx context.Context) {
-						destination.NextWithContext(mAx.A, mAx.B)
+						if first {
+							// no value was seen: there is no stored context, use the completion's
+							destination.NextWithContext(ctx, mAx.B)
+						} else {
+							destination.NextWithContext(mAx.A, mAx.B)
+						}
+
 						destination.CompleteWithContext(ctx)
 					},
 				),
